@@ -155,6 +155,143 @@ theorem findPduChain_finds (t : Table) (flag : Nat) : ∀ (chain : List Nat) (j 
         rcases ih j' K hj hm with ⟨i, hi, hle⟩
         exact ⟨i + 1, by simp [hi], by omega⟩
 
+
+/-! ### cheap evaluation: ancestor lists and accepted-flag sets
+
+`isA` and `evalMF` answer one (class, class) / (class, flag) question per call.  The table theorems of
+`Props/C13.lean` ask ~10⁴ such questions in the kernel; the two functions below compute, once per class, the *list*
+of all ancestors and the *finite set of all flags* a `matches_flag` body accepts, and the lemmas say that the
+per-question functions are membership tests in those lists.  (As a bonus the accepted-flag set speaks about *every*
+flag value, not only about the flags of the classes in the table.) -/
+
+/-- the class and all its direct and indirect bases -/
+def ancestors (t : List ClassRow) : Nat → Nat → List Nat
+  | 0, _ => []
+  | fuel + 1, K =>
+    match t[K]? with
+    | none => []
+    | some r => K :: r.bases.flatMap (fun b => ancestors t fuel b)
+
+theorem contains_flatMap {α} [BEq α] (l : List Nat) (g : Nat → List α) (x : α) :
+    (l.flatMap g).contains x = l.any (fun y => (g y).contains x) := by
+  induction l with
+  | nil => simp
+  | cons a as ih => simp [List.flatMap_cons, ih]
+
+theorem isA_eq_contains (t : List ClassRow) : ∀ (fuel K T : Nat),
+    isA t fuel K T = (ancestors t fuel K).contains T := by
+  intro fuel
+  induction fuel with
+  | zero => intro K T; simp [isA, ancestors]
+  | succ n ih =>
+    intro K T
+    unfold isA ancestors
+    cases hr : t[K]? with
+    | none => simp
+    | some r =>
+      simp only [List.contains_cons, contains_flatMap]
+      congr 1
+      · simp only [BEq.beq, decide_eq_decide]; exact eq_comm
+      · congr 1; funext b; exact ih b T
+
+theorem single_contains (v f : Nat) : ([v] : List Nat).contains f = (f == v) := by
+  simp only [List.contains_cons, List.contains_nil, Bool.or_false]
+
+theorem contains_app (A B : List Nat) (f : Nat) : (A ++ B).contains f = (A.contains f || B.contains f) := by
+  induction A with
+  | nil => simp
+  | cons a as ih => simp only [List.cons_append, List.contains_cons, ih, Bool.or_assoc]
+
+/-- the finite set of flags accepted by a `matches_flag` body on an object of dynamic class `dyn`
+    (`none` when some part of the body cannot be evaluated) -/
+def acceptSet (t : Table) : Nat → Nat → MF → Option (List Nat)
+  | 0, _, _ => none
+  | fuel + 1, dyn, e =>
+    match e with
+    | .flagEqConst v => some [v]
+    | .flagEqFlagOf c => (flagValue t t.depth c).map (fun v => [v])
+    | .flagEqType => (pduTypeOf t t.depth dyn).map (fun v => [v])
+    | .callBase c =>
+      match matchBodyFrom t c with
+      | some b => acceptSet t fuel dyn b
+      | none => none
+    | .callVirtual =>
+      match matchBodyFrom t dyn with
+      | some b => acceptSet t fuel dyn b
+      | none => none
+    | .fwdMember c =>
+      match matchBodyFrom t c with
+      | some b => acceptSet t fuel c b
+      | none => none
+    | .or a b =>
+      match acceptSet t fuel dyn a, acceptSet t fuel dyn b with
+      | some A, some B => some (A ++ B)
+      | _, _ => none
+    | .unparsed _ => none
+
+/-- all flags for which `p->matches_flag(flag)` is true on an object of dynamic class `dyn` -/
+def acceptedFlags (t : Table) (dyn : Nat) : Option (List Nat) :=
+  match matchBodyFrom t dyn with
+  | some b => acceptSet t t.evalFuel dyn b
+  | none => none
+
+theorem evalMF_of_acceptSet (t : Table) : ∀ (fuel dyn : Nat) (e : MF) (S : List Nat),
+    acceptSet t fuel dyn e = some S → ∀ flag, evalMF t fuel dyn e flag = some (S.contains flag) := by
+  intro fuel
+  induction fuel with
+  | zero => intro dyn e S h; simp [acceptSet] at h
+  | succ n ih =>
+    intro dyn e S h flag
+    cases e with
+    | flagEqConst v =>
+      simp only [acceptSet, Option.some.injEq] at h; subst h
+      simp only [evalMF, single_contains]
+    | flagEqFlagOf c =>
+      simp only [acceptSet, Option.map_eq_some_iff] at h
+      rcases h with ⟨v, hv, rfl⟩
+      simp only [evalMF, hv, Option.map_some, single_contains]
+    | flagEqType =>
+      simp only [acceptSet, Option.map_eq_some_iff] at h
+      rcases h with ⟨v, hv, rfl⟩
+      simp only [evalMF, hv, Option.map_some, single_contains]
+    | callBase c =>
+      simp only [acceptSet] at h
+      simp only [evalMF]
+      split at h
+      · rename_i b hb; simp only [hb]; exact ih dyn b S h flag
+      · simp at h
+    | callVirtual =>
+      simp only [acceptSet] at h
+      simp only [evalMF]
+      split at h
+      · rename_i b hb; simp only [hb]; exact ih dyn b S h flag
+      · simp at h
+    | fwdMember c =>
+      simp only [acceptSet] at h
+      simp only [evalMF]
+      split at h
+      · rename_i b hb; simp only [hb]; exact ih c b S h flag
+      · simp at h
+    | or a b =>
+      simp only [acceptSet] at h
+      split at h
+      · rename_i A B hA hB
+        simp only [Option.some.injEq] at h; subst h
+        simp only [evalMF, ih dyn a A hA flag, ih dyn b B hB flag]
+        rw [contains_app]
+        cases hc : A.contains flag <;> simp
+      · simp at h
+    | unparsed s => simp [acceptSet] at h
+
+theorem matchesFlag_of_accepted {t : Table} {dyn : Nat} {S : List Nat} (h : acceptedFlags t dyn = some S) :
+    ∀ flag, matchesFlag t dyn flag = some (S.contains flag) := by
+  intro flag
+  unfold acceptedFlags at h
+  unfold matchesFlag
+  split at h
+  · rename_i b hb; simp only [hb]; exact evalMF_of_acceptSet t _ dyn b S h flag
+  · simp at h
+
 /-! ### reflection of table scans -/
 
 /-- Boolean scan of all pairs of classes -/
@@ -198,5 +335,28 @@ theorem askableB_lt {t : Table} {T : Nat} (h : askableB t T = true) : T < t.leng
   cases hd : declaring t (fun r => r.pduFlag.isSome) t.depth T with
   | none => simp [hd] at h
   | some d => exact declaring_lt t _ _ _ _ hd
+
+/-! ### fast forms of the per-pair tests (evaluate per-class data once) -/
+
+/-- `isAB` through the ancestor list -/
+def ancB (t : Table) (K T : Nat) : Bool := (ancestors t t.length K).contains T
+
+theorem ancB_eq (t : Table) (K T : Nat) : ancB t K T = isAB t K T := by
+  unfold ancB isAB; exact (isA_eq_contains t t.length K T).symm
+
+/-- "a look-up for `T` on an object of class `K` may succeed", through the accepted-flag set -/
+def succFast (t : Table) (K T : Nat) : Bool :=
+  match staticFlag t T, acceptedFlags t K, pduType t K with
+  | some f, some S, some ty => S.contains f || f == ty
+  | _, _, _ => true
+
+theorem succFast_of_succeeds {t : Table} {K T : Nat}
+    (h : (mayHold (findPdu1 t K T) || mayHold (tinsCast t K T)) = true) : succFast t K T = true := by
+  unfold succFast
+  split
+  · rename_i f S ty hf hS hty
+    simp only [findPdu1, tinsCast, hf, hty, matchesFlag_of_accepted hS f, mayHold] at h
+    cases h1 : S.contains f <;> cases h2 : (f == ty) <;> simp_all
+  · rfl
 
 end Tins.Lookup
